@@ -69,7 +69,8 @@ type fiatTr struct {
 	qual     map[string]string   // imported package name -> Lean namespace of its translated functions
 	methods  map[string]*fiatSig // "Recv.Method" of the package being translated
 	guards   []apiGuard
-	retKind  string // "", "nat", "bool", "error"
+	retKind  string            // "", "nat", "bool", "error"
+	ptrAlias map[string]string // local `q := &p.S` -> p (API mode)
 	optional map[string]bool
 }
 
@@ -344,6 +345,20 @@ func (t *fiatTr) stmt(s ast.Stmt) {
 			}
 		}
 	case *ast.AssignStmt:
+		if t.api && x.Tok == token.DEFINE && len(x.Lhs) == 1 && len(x.Rhs) == 1 {
+			// q := &p.S — a local name for the limbs of a pointer parameter
+			if u, ok := x.Rhs[0].(*ast.UnaryExpr); ok && u.Op == token.AND {
+				if id, ok := x.Lhs[0].(*ast.Ident); ok {
+					if base := t.locOf(x.Rhs[0]); base != "" {
+						if t.ptrAlias == nil {
+							t.ptrAlias = map[string]string{}
+						}
+						t.ptrAlias[id.Name] = base
+						return
+					}
+				}
+			}
+		}
 		if len(x.Lhs) == 2 && len(x.Rhs) == 1 {
 			call, ok := x.Rhs[0].(*ast.CallExpr)
 			if !ok {
@@ -431,10 +446,30 @@ func (t *fiatTr) stmt(s ast.Stmt) {
 		v := "cmovznzU64 " + atom(t.expr(call.Args[1])) + " " + atom(t.expr(call.Args[2])) + " " + atom(t.expr(call.Args[3]))
 		t.assignTo(ad.X, v, s)
 	case *ast.IfStmt:
-		if !t.api || x.Init != nil || x.Else != nil || len(x.Body.List) != 1 || len(t.lines) != 0 {
+		if !t.api || x.Init != nil || x.Else != nil || len(t.lines) != 0 {
 			t.fail(s, "if statement")
 		}
-		rs, ok := x.Body.List[0].(*ast.ReturnStmt)
+		body := x.Body.List
+		if len(body) == 2 {
+			// `p.M(); return p` is `return p.M()` when M returns its receiver (every method of the API does)
+			if es, ok := body[0].(*ast.ExprStmt); ok {
+				if call, ok := es.X.(*ast.CallExpr); ok {
+					if sel, ok := call.Fun.(*ast.SelectorExpr); ok {
+						if r2, ok := body[1].(*ast.ReturnStmt); ok && len(r2.Results) == 1 {
+							a, okA := sel.X.(*ast.Ident)
+							b, okB := r2.Results[0].(*ast.Ident)
+							if okA && okB && a.Name == b.Name {
+								body = []ast.Stmt{&ast.ReturnStmt{Return: r2.Return, Results: []ast.Expr{call}}}
+							}
+						}
+					}
+				}
+			}
+		}
+		if len(body) != 1 {
+			t.fail(s, "if statement")
+		}
+		rs, ok := body[0].(*ast.ReturnStmt)
 		if !ok || len(rs.Results) != 1 {
 			t.fail(s, "guard body")
 		}
@@ -511,6 +546,9 @@ func (t *fiatTr) locOf(e ast.Expr) string {
 	case *ast.Ident:
 		if p, ok := t.pmap[x.Name]; ok && p.isPtr {
 			return x.Name
+		}
+		if base, ok := t.ptrAlias[x.Name]; ok {
+			return base
 		}
 	}
 	return ""
